@@ -67,7 +67,11 @@ func c09Step(twin bool) {
 	}
 	verif.Assert("never-answer-an-scmp-error", !offenderIsSCMPError)
 	// ---- layout of the reply
-	dl, sl := c.sl, 0 // DstHost of the reply = offender's SrcHost; SrcHost = router address (IPv4)
+	dl, sl := c.sl, 0 // DstHost of the reply = offender's SrcHost; SrcHost = router address
+	lh6 := vrParamOr("lh6", 0) == 1
+	if lh6 {
+		sl = 3
+	}
 	addrLen := 16 + 4*(dl+1) + 4*(sl+1)
 	pathLen := c.hdrLen - c.pathOff
 	if c.pathType == 3 {
@@ -100,7 +104,7 @@ func c09Step(twin bool) {
 	verif.Assert("hdrlen-consistent", int(out[5])*4 == hdrLen)
 	verif.Assert("payloadlen-consistent", int(be16(out, 6)) == len(out)-hdrLen)
 	verif.Assert("path-type-scion", out[8] == 1)
-	verif.Assert("address-types-swapped", (out[9]>>4)&0xf == u.orig[9]&0xf && out[9]&0xf == 0)
+	verif.Assert("address-types-swapped", (out[9]>>4)&0xf == u.orig[9]&0xf && int(out[9]&0xf) == sl)
 	// ---- addressing
 	verif.Assert("dst-ia-is-offender-source", be64(out, 12) == rf.srcIA)
 	verif.Assert("src-ia-is-local", be64(out, 20) == uint64(u.r.d.localIA))
@@ -111,7 +115,11 @@ func c09Step(twin bool) {
 	}
 	verif.Assert("dst-host-is-offender-source-host", same)
 	o := 28 + 4*(c.sl+1)
-	verif.Assert("src-host-is-router-address", out[o] == 10 && out[o+1] == 1 && out[o+2] == 2 && out[o+3] == 3)
+	if lh6 {
+		verif.Assert("src-host-is-router-address", out[o] == 0xfd && out[o+12] == 10 && out[o+13] == 1 && out[o+14] == 2 && out[o+15] == 3)
+	} else {
+		verif.Assert("src-host-is-router-address", out[o] == 10 && out[o+1] == 1 && out[o+2] == 2 && out[o+3] == 3)
+	}
 	// ---- SCMP header
 	verif.Assert("scmp-type", out[l4Off] == byte(req.spType))
 	verif.Assert("scmp-code", out[l4Off+1] == byte(req.code))
